@@ -93,12 +93,17 @@ ReaderSend ==                       \* Send(data): enabled iff not full or every
             /\ pc' = [pc EXCEPT !["reader"] = "check"]
   /\ UNCHANGED <<vpc, stop, vq, dataRecv, dataSend, vSend, spawned, statsQ, statsSend, istatsQ, istatsSend, cur, errs>>
 
-ReaderExit ==                       \* scanner dropped (flushes its counters), data sender dropped
+ReaderDropScanner ==                \* the scanner is dropped first: DropSender(istats)
   /\ pc["reader"] = "exit"
   /\ istatsSend' = 0
+  /\ pc' = [pc EXCEPT !["reader"] = "exit2"]
+  /\ UNCHANGED <<vpc, stop, data, vq, dataRecv, dataSend, vSend, spawned, statsQ, statsSend, istatsQ, nextBatch, cur, errs>>
+
+ReaderExit ==                       \* then the data sender: DropSender(data)
+  /\ pc["reader"] = "exit2"
   /\ dataSend' = 0
   /\ pc' = [pc EXCEPT !["reader"] = "done"]
-  /\ UNCHANGED <<vpc, stop, data, vq, dataRecv, vSend, spawned, statsQ, statsSend, istatsQ, nextBatch, cur, errs>>
+  /\ UNCHANGED <<vpc, stop, data, vq, dataRecv, vSend, spawned, statsQ, statsSend, istatsQ, istatsSend, nextBatch, cur, errs>>
 
 \* ---------------------------------------------------------------- analysis / dispatcher
 AnaCheck ==
@@ -229,7 +234,7 @@ AllDone == /\ \A t \in Threads : (pc[t] = "done") \/ (t = "sig" /\ pc[t] = "arme
 Finished == AllDone /\ UNCHANGED vars
 
 Next ==
-  \/ ReaderCheck \/ ReaderSend \/ ReaderExit
+  \/ ReaderCheck \/ ReaderSend \/ ReaderDropScanner \/ ReaderExit
   \/ AnaCheck \/ AnaRecv \/ AnaDispatchOld \/ AnaDispatchNew \/ AnaClose \/ AnaJoin
   \/ ValRecv1 \/ ValRecv2 \/ ValRecv3
   \/ MainForward \/ MainJoinReader \/ MainJoinAna \/ MainJoinCtrl
@@ -238,7 +243,7 @@ Next ==
   \/ Finished
 
 Fairness ==
-  /\ WF_vars(ReaderCheck) /\ WF_vars(ReaderSend) /\ WF_vars(ReaderExit)
+  /\ WF_vars(ReaderCheck) /\ WF_vars(ReaderSend) /\ WF_vars(ReaderDropScanner) /\ WF_vars(ReaderExit)
   /\ WF_vars(AnaCheck) /\ WF_vars(AnaRecv) /\ WF_vars(AnaDispatchOld) /\ WF_vars(AnaDispatchNew) /\ WF_vars(AnaClose) /\ WF_vars(AnaJoin)
   /\ WF_vars(ValRecv1) /\ WF_vars(ValRecv2) /\ WF_vars(ValRecv3)
   /\ WF_vars(MainForward) /\ WF_vars(MainJoinReader) /\ WF_vars(MainJoinAna) /\ WF_vars(MainJoinCtrl)
